@@ -634,6 +634,19 @@ mod huffman {
             Huffman { encode, decode }
         }
 
+        /// Verification hook: a code with only the encoding map filled from explicit `(symbol, bits, code)` triples; the
+        /// decoding table stays void (the encoder does not read it).
+        pub fn verif_encode_only(triples: &[(T, usize, u64)]) -> Self {
+            let mut encode = BTreeMap::new();
+            for (sym, bits, code) in triples {
+                encode.insert(sym.clone(), (*bits, *code));
+            }
+            Huffman {
+                encode,
+                decode: core::array::from_fn(|_| Decode::Void),
+            }
+        }
+
         /// Verification hook: a code whose decoding table is entirely void and whose encoding map is empty (what
         /// `create_from` returns for empty statistics), without the `Vec` to array conversion.
         pub fn verif_empty() -> Self {
@@ -930,6 +943,11 @@ pub mod verif_hooks {
         /// A code assembled from explicit `(symbol, bits, code)` triples through the real table insertion.
         pub fn from_triples(triples: &[(B, usize, u64)]) -> Self {
             Code(Huffman::verif_from_triples(triples, true))
+        }
+
+        /// As `from_triples`, encoding map only (the decoding table stays void).
+        pub fn encode_only(triples: &[(B, usize, u64)]) -> Self {
+            Code(Huffman::verif_encode_only(triples))
         }
 
         /// As `from_triples`, decoding table only (the encoding map stays empty).
